@@ -36,6 +36,8 @@ def dump_mir(overflow_checks='on'):
 
 def kind_class(kind):
     k = kind.lower()
+    if 'derived through a shared borrow' in k:
+        return 'provenance'
     if 'zero-size allocation' in k:
         return 'zero-size-alloc'
     if 'null block' in k:
@@ -207,6 +209,19 @@ def replay_file(prop, rec):
     exe, err = build_mreplay()
     if err:
         return False, err
+    if kc == 'provenance':
+        # write permission of a derived pointer: not observable natively; the aliasing model is executed by Miri (Tree Borrows - Stacked
+        # Borrows rejects the unchanged chunks_from_slice_mut, which no property is about)
+        crate = os.path.dirname(os.path.dirname(os.path.dirname(exe)))
+        rc, out, wall = urun(['cargo', '+nightly', 'miri', 'run', '--offline', '--', 'mutprov', 'x'], cwd=crate, timeout=1800,
+                             env=dict(base_env(), MIRIFLAGS='-Zmiri-tree-borrows'))
+        m = re.search(r'error: Undefined Behavior: (.*)', out)
+        if m:
+            loc = re.search(r'-->\s*(\S*src/main.rs:\d+)', out)
+            return True, 'Miri (Tree Borrows) on a driver that writes through every mutable view of the API: Undefined Behavior: %s%s' % (m.group(1)[:200], (' at ' + loc.group(1)) if loc else '')
+        if 'every mutable view accepted the writes' in out:
+            return False, 'not reproduced: Miri (Tree Borrows) accepts a write through every mutable view'
+        return False, 'Miri run failed: ' + out[-300:]
     rc, out, wall = urun([exe, sc, kc], timeout=900)
     m = re.search(r'REPRODUCED (.*)', out)
     if rc == 1 and m:
